@@ -894,7 +894,7 @@ class C15(common.Prop):
 
     def describe(self, case):
         d = {'s': case['s'], 'mol': case['mol'], 'kind': case.get('kind', '')}
-        for k in ('raw', 'judged', 'wb', 'hfree', 'simtok'):
+        for k in ('raw', 'judged', 'wb', 'simtok'):
             if k in case:
                 d[k] = case[k]
         return d
@@ -1009,7 +1009,7 @@ class C15(common.Prop):
                    lit.lst([lit.pair(lit.z(a), lit.z(b)) for a, b in ident]) if ident is not None else '[]',
                    chir, rel, wbl,
                    lit.lst(['(%s, %s, %s)' % (lit.s(n), lit.s(t), o) for n, t, o in impl.get('frags', [])]),
-                   '(Some %s)' % lit.s(case['s']) if case.get('hfree') else 'None',
+                   '(Some %s)' % lit.s(case['s']) if ('raw' not in case) else 'None',
                    lit.lst(['(%s, %s, %s)' % (lit.z(l), lit.z(a), lit.b(sd == 'u')) for l, a, sd in mol['side']]),
                    lit.lst(['(%s, %s)' % (lit.s(n), lit.lst(['(%s, %s)' % (lit.z(i), lit.s(tk)) for i, tk in tl]))
                             for n, tl in sorted(case.get('simtok', {}).items())])))
@@ -1130,12 +1130,5 @@ _WR = _wmol(['O', 'C', 'C', 'C', 'C', 'C', 'C', 'F', 'C', 'Cl', 'Br'],
 WITNESSES[-1]['mol'] = _WR
 WITNESSES.append({'s': '{[#A]}.{#A=OC%10CCCC%10[C;x=R](F)[C;x=S](Cl)Br}', 'mol': _WR, 'kind': 'witness ring label single',
                   'nparts': 1})
-
-# witnesses whose atoms carry no hydrogens: the whole model from the STRING (EzStrings.resolve_string) is compared too
-_HFREE = ('#A=F/C(Cl)=[$],#B=[$]=C(Br)/I}', '#A=F/C(Cl)=C(Br)/I}', '#A=F/[$],#B=[$]/C(Cl)=C(/Br)I}',
-          '#A=F/[$],#B=[$]/C(/Cl)=C(/Br)I}')
-for _w in WITNESSES:
-    if _w['s'].split('.{', 1)[1] in _HFREE:
-        _w['hfree'] = True
 
 PROP = C15()
